@@ -53,6 +53,9 @@ def inners():
         ('ref-ignore', ('ref', 'R'), {'R': ('seq', [('str', 'a'), ('opt', ('str', 'b'))])}, [('ignore', ('str', ' '))]),
         ('template', ('call', 'W', [('str', 'a')]), {}, [('rule', 'W', ['p'], ('seq', [('ref', 'p'), ('opt', ('str', 'b'))]))]),
         ('class', ('ref', 'K'), {}, [('class', 'K', None, [('field', 'x', ('str', 'a')), ('field', 'y', ('opt', ('str', 'b')))])]),
+        # regex and case-insensitive literals followed by ignorable input, nothing else in the nest
+        ('regex-ignore', ('seq', [T, ('opt', ('re', 'b', False))]), {}, [('ignore', ('re', ' +', False))]),
+        ('istr-ignore', ('seq', [('istr', 'a'), ('opt', ('istr', 'b'))]), {}, [('ignore', ('str', ' '))]),
         # byte literals (bytes input), alone and followed by ignorable input
         ('byte', ('seq', [('byte', 0x61), ('opt', ('byte', 0x62))]), {}, []),
         ('byte-ignore', ('seq', [('byte', 0x61), ('opt', ('byte', 0x62))]), {}, [('ignore', ('byte', 0x20))]),
